@@ -61,9 +61,9 @@ CONFIGS = [
         maxsize=9, maxt=2, inv=("WellFormedInv", "DeclaredDigestHonest", "C14Laws"), props=("C02Prop", "C14Prop", "C07Prop"),
         shapes="ShUpTo(%s, 3) \\cup {e \\in ShUpTo(%s, 5) : IsNode(e)} \\cup NodeSubjectNodes({Leaf(V(\"a1\"))}, 9) \\cup Decorated({Leaf(V(\"a1\"))})" % (B2, B2)),
     # traversal and queries on every shape and its obscured variants (C15)
-    cfg("query_q", [["build"], ["elideset", "compressone", "observe"], ["observe"]], nreg=1, maxsize=12, maxt=2,
+    cfg("query_q", [["build"], ["elideset", "compressone", "observe"], ["observe"]], nreg=1, maxsize=14, maxt=2,
         inv=("WellFormedInv", "DeclaredDigestHonest", "RevealKeepsDigest", "C15Laws"),
-        shapes="ShUpTo(%s, 5) \\cup NodeSubjectNodes(%s, 9) \\cup Decorated(%s)" % (B3, B2, B2)),
+        shapes="ShUpTo(%s, 5) \\cup NodeSubjectNodes(%s, 9) \\cup Decorated(%s) \\cup DeepDecorated(%s)" % (B3, B2, B2, B2)),
     # the decoder on every single structural mutation of valid encodings (C06)
     cfg("decode_q", [["build"], ["elideset", "compressone", "decodewire", "codec"], ["decodewire", "codec"]], nreg=1, maxsize=14, maxt=1,
         inv=("WellFormedInv", "C05RoundTrip"), props=("C06Prop",),
@@ -107,7 +107,7 @@ CONFIGS = [
         nreg=2, maxsize=12, maxt=2, inv=("WellFormedInv",), props=("C12Prop",),
         shapes="ShUpTo(%s, 3) \\cup {e \\in Sh(%s, 5) : IsNode(e)} \\cup Nodes2(%s) \\cup WrapNodes(%s) \\cup NodeSubjectNodes({Leaf(V(\"a1\"))}, 9) \\cup Decorated({Leaf(V(\"a1\"))})" % (B2, B2, B1, B1)),
     # types and attachments (C19)
-    cfg("attach_q", [["build"], ["build", "types", "attach", "badattach"], ["types", "attach", "badattach", "decorate"], ["obs_types", "obs_attach"]],
+    cfg("attach_q", [["build"], ["build", "types", "attach", "badattach"], ["types", "attach", "badattach", "decorate", "elideset"], ["obs_types", "obs_attach"]],
         atoms=("a1",), nreg=2, maxsize=30, maxt=1, inv=("WellFormedInv",), props=("C19Prop",),
         shapes="ShUpTo(%s, 2) \\cup {e \\in Sh(%s, 5) : IsNode(e)} \\cup NodeSubjectNodes({Leaf(V(\"a1\"))}, 9) \\cup Decorated({Leaf(V(\"a1\"))})" % (B1, B1)),
     # salt: structure (C17, direction A)
@@ -117,7 +117,7 @@ CONFIGS = [
     # totality: every transform on decorated / partially obscured shapes (C16)
     cfg("total_q", [["build"], ["elideset", "compressone"], ["assertions", "compress", "encrypt", "navigate", "wrap", "lookup", "salt", "elideone"]],
         atoms=("a1",), nreg=1, maxsize=14, maxt=1, inv=("WellFormedInv",), props=("C02Prop", "C07Prop"),
-        shapes="Decorated(%s) \\cup TwinDecorated(%s) \\cup NodeSubjectNodes(%s, 9) \\cup {e \\in Sh(%s, 5) : IsNode(e)}" % (B1, B2, B1, B2)),
+        shapes="Decorated(%s) \\cup TwinDecorated(%s) \\cup DeepDecorated(%s) \\cup NodeSubjectNodes(%s, 9) \\cup {e \\in Sh(%s, 5) : IsNode(e)}" % (B1, B2, B1, B1, B2)),
     # whole-envelope obscuring calls on decorated / twin-decorated / node-subject shapes (C02)
     cfg("obscure_q3", [["build"], ["elideset", "compress", "encrypt", "elideone"], ["compress", "encrypt", "assertions"]],
         atoms=("a1",), nreg=1, maxsize=16, maxt=1, props=("C02Prop", "C03Prop", "C07Prop"),
